@@ -294,4 +294,20 @@ Proof.
 Qed.
 End Born.
 
+(* the same with the hypotheses on the conjugation bundled *)
+Record conj_ok (cj : R -> R) : Prop := mkConj {
+  cjo_mul : forall x y, cj (x * y) = cj x * cj y;
+  cjo_one : cj rI = rI;
+  cjo_opp : forall x, cj (ropp x) = ropp (cj x);
+  cjo_i : cj ci = ropp ci;
+  cjo_w1 : cj (k_w1 K) = k_w1i K;
+  cjo_w3 : cj (k_w3 K) = k_w3i K;
+  cjo_e : forall th, cj (k_e K th) = k_ei K th;
+  cjo_a : forall th, cj (k_a K th) = k_ai K th
+}.
+Theorem noise_free_born_index cj : conj_ok cj -> forall n p psi0, Forall (wf_instr n) p ->
+  forall b, length b = n ->
+  nrm R rmul cj (sem (run_items p) psi0 b) = nrm R rmul cj (sem (ideal_items p) psi0 b).
+Proof. intros [h1 h2 h3 h4 h5 h6 h7 h8]. exact (noise_free_born cj h1 h2 h3 h4 h5 h6 h7 h8). Qed.
+
 End Lift.
